@@ -536,6 +536,8 @@ def _plan(c, r):
                 # the harness' relabelled twin must be Model/Relabel.v's map_profile of the base (ties "twin" to the model)
                 plan.append((j, "model-twin", "c15.map_profile", [[[a, b] for a, b in zip(pl[1], t[0])], pl[2]]))
                 break
+        if c["tags"].get("gen") == "sav-exact-tie":
+            plan.append((0, "model-sav", "c06.sav", c06.inst_payload(dt, pl[1], list(zip(pl[2], pl[3])))))
         for j, ((alts, orders, mults, build, f), rv) in enumerate(zip(variants_ord(pl), r)):
             if not isinstance(rv, dict) or "harness" in rv:
                 continue
@@ -694,6 +696,12 @@ def _judge_ord(c, r, wit):
                                "%r of the base's" % (j, got, img))
     # witnesses
     for (j, key), ok_ in wit:
+        if key == "model-sav":
+            mine = r[0].get("rules", {}).get("sav")
+            if mine is not None and c06._canon(ok_) != mine[:2]:
+                return _mm("sav_spec (C06)", "satisfaction_approval_winner on the base answers %r, the exact model %r"
+                           % (mine[:2], c06._canon(ok_)))
+            continue
         if key == "model-twin":
             t = pl[4][j - 1]
             inv = {i: k for k, i in enumerate(t[1])}
@@ -1212,6 +1220,77 @@ def gen_sc_nearmiss(rng, tier, count, ntw):
     return out
 
 
+SAV_DEMO = (6, [([1, 2, 3, 4, 5], 3), ([1, 3, 4, 5, 6], 1), ([3], 1), ([4, 6], 2)])   # alternatives 3 and 4 both score 9/5
+
+
+def _float_order_sensitive(prof):
+    """generator-side selection only: summing mult/size as floats in some storage orders gives different sums for the
+    exactly tied best alternatives (so a float implementation answers differently on equivalent inputs)"""
+    import itertools
+    sc, _ = c06.sav_scores(prof)
+    best = max(sc.values())
+    w = [a for a in sc if sc[a] == best]
+    perms = list(itertools.permutations(prof)) if len(prof) <= 5 else None
+    seen = set()
+    r = random.Random(len(prof) * 7919 + 13)
+    for t in range(120 if perms else 60):
+        order = perms[t % len(perms)] if perms else r.sample(prof, len(prof))
+        fs = {}
+        for s_, k in order:
+            for a in s_:
+                fs[a] = fs.get(a, 0) + k / len(s_)
+        seen.add(len({fs[a] for a in w}) == 1)
+        if len(seen) == 2:
+            return True
+    return False in seen
+
+
+def gen_sav_ties(rng, tier, count):
+    """approval profiles with a planted EXACT first-place satisfaction tie between sums of different non-dyadic fractions
+    (denominators 3, 5, 6, 7; >= 3 ballots contribute), selected so that float summation would be order-sensitive;
+    every case: many storage orders (all permutations for <= 4 ballots, 24 random ones beyond) x relabellings; the
+    base's winners are also compared with the exact model (c06.sav)"""
+    import itertools
+    found = [SAV_DEMO]
+    tries = 0
+    while len(found) < count and tries < 300000:
+        tries += 1
+        m = rng.choice([4, 5, 6, 6, 7, 7, 8])
+        alts = list(range(1, m + 1))
+        prof = []
+        for _ in range(rng.randint(3, 7)):
+            size = rng.choice([1, 2, 3, 3, 5, 5, 6, 7, 7])
+            if size > m:
+                continue
+            s_ = rng.sample(alts, size)
+            if not any(set(s_) == set(t) for t, _ in prof):
+                prof.append((s_, rng.randint(1, 4)))
+        if len(prof) >= 3 and c06.diff_denominator_tie(prof) and _float_order_sensitive(prof):
+            found.append((m, prof))
+    out = []
+    for idx, (m, prof) in enumerate(found):
+        alts = list(range(1, m + 1))
+        n = len(prof)
+        two = idx % 2 == 1              # complete two-class form (toc) or incomplete one-class form (toi)
+        orders = []
+        for s_, k in prof:
+            rest = [x for x in alts if x not in s_]
+            orders.append([list(s_), rest] if (two and rest) else [list(s_)])
+        perms = [list(p_) for p_ in itertools.permutations(range(n))] if n <= 4 else \
+            [rand_perm(rng, range(n)) for _ in range(24)]
+
+        def twins(n_, perms=perms, alts=alts, m=m):
+            tw = []
+            for j, bp in enumerate(perms):
+                lab = list(alts) if j % 3 else twin_labels(rng, m)
+                tw.append([lab, list(bp), rand_perm(rng, range(m)) if j % 2 else list(range(m)), 0, 0])
+            return tw
+        c = ord_case(rng, alts, orders, [k for _, k in prof], F_RULES, [], [1], twins=twins, gen="sav-exact-tie")
+        c["payload"][5] &= ~F_HIST
+        out.append(c)
+    return out
+
+
 def gen_scoring(rng, tier, count):
     """tie-heavy profiles of every data type for the nine rules, the tables and has_condorcet"""
     out = []
@@ -1320,6 +1399,7 @@ def generate(tier, seed):
     out += gen_small(rng, tier, 120 if q else 500, 14 if q else 50, 10 if q else 40)
     out += gen_sc_nearmiss(rng, tier, 120 if q else 600, 16)
     out += gen_scoring(rng, tier, 300 if q else 1500)
+    out += gen_sav_ties(rng, tier, 25 if q else 120)
     out += gen_app(rng, tier, 200 if q else 1000)
     out += gen_mat(rng, tier, 200 if q else 1000)
     out += gen_eucl(tier, seed)
